@@ -19,18 +19,21 @@ Count(js, what) == Cardinality({i \in 1..Len(js) : js[i] = what})
 RECURSIVE HasRefs(_)
 HasRefs(n) == \E x \in Nodes(n) : x.cls \in {"HplThisMessage", "HplVarReference"}
 EmptyRho == [this |-> <<"msg", [a \in {} |-> 0]>>, vars |-> [a \in {} |-> 0]]
-MayRaise(in, rhos) ==
+ArithmeticErrors == {"ValueError", "ZeroDivisionError", "OverflowError", "typeguard.TypeCheckError"}
+MayRaise(in, rhos, out) ==
   \/ \E x \in Nodes(in) :
         \/ (IsExpr(x) /\ ~HasRefs(x) /\ Eval(x, EmptyRho, TRUE)[1] \in {"U", "O", "R"})
         \/ (x.cls = "HplBinaryOperator" /\ x.operator = "/"
               /\ \A i \in 1..Len(rhos) : LET d == Eval(x.operand2, rhos[i], FALSE) IN d[1] # "n" \/ d[2] = 0)
   \* the input evaluates without error under NO valuation of the grid (e.g. sqrt(0 - xs[0] ** 0)): the statement
-  \* puts no obligation on such an input, and folding its constant core is what exposes the undefined constant
-  \/ (Len(rhos) > 0 /\ \A i \in 1..Len(rhos) : Eval(in, rhos[i], TRUE)[1] \in {"U", "O", "R"})
+  \* puts no obligation on such an input, and folding its constant core is what exposes the undefined constant.
+  \* That is a matter of arithmetic: a TypeError (or anything else) raised by simplify on an AST the parser accepted
+  \* is not excused by it.
+  \/ (out \in ArithmeticErrors /\ Len(rhos) > 0 /\ \A i \in 1..Len(rhos) : Eval(in, rhos[i], TRUE)[1] \in {"U", "O", "R"})
 
 SimplifyVerdict(e, js) ==
   IF e.out # "ok" THEN
-       (IF MayRaise(e.in, e.rhos) THEN {} ELSE {"Raises:" \o e.out})
+       (IF MayRaise(e.in, e.rhos, e.out) THEN {} ELSE {"Raises:" \o e.out})
   ELSE LET o == e.outs[1] IN
        (IF IsPred(e.in) # IsPred(o) THEN {"SameKind"} ELSE {})
        \cup (IF TypeOf(e.in) # TypeOf(o) THEN {"SameType"} ELSE {})
